@@ -249,6 +249,8 @@ fn uexpr_sx(e: &garble_lang::ast::Expr<()>) -> String {
             format!("(op {n} {} {})", uexpr_sx(l), uexpr_sx(r))
         }
         ExprEnum::FnCall(f, args) => format!("(call {f}{})", list(args)),
+        // the parser builds the built-in call for the name `join`, with has_assoc_data = false: printed as the call it was
+        ExprEnum::BuiltInFnCall(garble_lang::ast::BuiltInFnCall::Join { args, has_assoc_data: false, .. }) => format!("(call join{})", list(args)),
         ExprEnum::If(c, t, x) => format!("(if {} {} {})", uexpr_sx(c), uexpr_sx(t), uexpr_sx(x)),
         ExprEnum::Cast(ty, x) => format!("(cast {} {})", utype_sx(ty), uexpr_sx(x)),
         ExprEnum::ArrayLiteral(es) => format!("(arrlit{})", list(es)),
@@ -282,6 +284,7 @@ fn utype_sx(ty: &garble_lang::ast::Type) -> String {
         Type::Tuple(ts) => format!("(tuplety{})", ts.iter().map(|t| format!(" {}", utype_sx(t))).collect::<String>()),
         Type::Array(t, n) => format!("(arr {} {n})", utype_sx(t)),
         Type::ArrayConst(t, c) => format!("(arrc {} {c})", utype_sx(t)),
+        Type::ArrayConstExpr(t, c) => format!("(arrce {} {})", utype_sx(t), uconst_sx(c)),
         _ => "(outside)".into(),
     }
 }
@@ -369,6 +372,81 @@ pub fn job_pexpr(job: &Sexp) -> String {
             }
             _ => "(err)".to_string(),
         }
+    }));
+    r.unwrap_or_else(|_| "(crash)".to_string())
+}
+
+fn uconst_sx(c: &garble_lang::ast::ConstExpr) -> String {
+    use garble_lang::ast::ConstExprEnum::*;
+    let list = |cs: &Vec<garble_lang::ast::ConstExpr>| cs.iter().map(|x| format!(" {}", uconst_sx(x))).collect::<String>();
+    match &c.0 {
+        True => "(ct)".into(),
+        False => "(cf)".into(),
+        NumUnsigned(n, t) => format!("(cnu {n} {})", uty_sx(t)),
+        NumSigned(n, t) => format!("(cns {n} {})", sty_sx(t)),
+        ExternalValue { party, identifier } => format!("(cext {party} {identifier})"),
+        ConstExprIdent(s) => format!("(cid {s})"),
+        Max(cs) => format!("(cmax{})", list(cs)),
+        Min(cs) => format!("(cmin{})", list(cs)),
+        Add(l, r) => format!("(cadd {} {})", uconst_sx(l), uconst_sx(r)),
+        Sub(l, r) => format!("(csub {} {})", uconst_sx(l), uconst_sx(r)),
+    }
+}
+
+// `pprog` jobs: the real parser's untyped PROGRAM: `(pprog id (src "<program text>"))`. The four maps are printed sorted
+// by name. Result: (prog (consts (n ty c)..) (structs (n (f ty)..)..) (enums (n variant..)..) (fns fn..)) | (err) | (crash)
+pub fn job_pprog(job: &Sexp) -> String {
+    let src = job.field("src").args()[0].text();
+    let r = catch_unwind(AssertUnwindSafe(|| {
+        let toks = match garble_lang::scan::scan(&src) {
+            Ok(t) => t,
+            Err(_) => return "(err)".to_string(),
+        };
+        let prg = match toks.parse() {
+            Ok(p) => p,
+            Err(_) => return "(err)".to_string(),
+        };
+        let mut out = String::from("(prog (consts");
+        let mut ks: Vec<_> = prg.const_defs.keys().collect();
+        ks.sort();
+        for k in ks {
+            let c = &prg.const_defs[k];
+            out += &format!(" ({k} {} {})", utype_sx(&c.ty), uconst_sx(&c.value));
+        }
+        out += ") (structs";
+        let mut ks: Vec<_> = prg.struct_defs.keys().collect();
+        ks.sort();
+        for k in ks {
+            out += &format!(" ({k}{})", prg.struct_defs[k].fields.iter().map(|(f, t)| format!(" ({f} {})", utype_sx(t))).collect::<String>());
+        }
+        out += ") (enums";
+        let mut ks: Vec<_> = prg.enum_defs.keys().collect();
+        ks.sort();
+        for k in ks {
+            let vs = prg.enum_defs[k].variants.iter().map(|v| match v {
+                garble_lang::ast::Variant::Unit(n) => format!(" (vunit {n})"),
+                garble_lang::ast::Variant::Tuple(n, ts) => format!(" (vtuple {n}{})", ts.iter().map(|t| format!(" {}", utype_sx(t))).collect::<String>()),
+            }).collect::<String>();
+            out += &format!(" ({k}{vs})");
+        }
+        out += ") (fns";
+        let mut ks: Vec<_> = prg.fn_defs.keys().collect();
+        ks.sort();
+        for k in ks {
+            let f = &prg.fn_defs[k];
+            let ps = f.params.iter().map(|p| format!(
+                " ({} {} {})",
+                match p.mutability { garble_lang::ast::Mutability::Mutable => "mut", garble_lang::ast::Mutability::Immutable => "imm" },
+                p.name, utype_sx(&p.ty)
+            )).collect::<String>();
+            out += &format!(
+                " (fn {k} {} {} {} (params{ps}) (body{}))",
+                f.identifier, if f.is_pub { "pub" } else { "priv" }, utype_sx(&f.ty),
+                f.body.iter().map(|x| format!(" {}", ustmt_sx(x))).collect::<String>()
+            );
+        }
+        out += "))";
+        if out.contains("(outside)") { "(outside)".to_string() } else { out }
     }));
     r.unwrap_or_else(|_| "(crash)".to_string())
 }
